@@ -16,6 +16,7 @@ CONSTANTS
   GenHistory = FALSE
   GenReject = FALSE
   GenOnlyAfterReject = FALSE
+  GenOnlyStale = FALSE
 VIEW LoadView
 INVARIANT EmitLoad
 CHECK_DEADLOCK FALSE
